@@ -14,6 +14,7 @@ from outside the repository:
 No property logic here.
 """
 import builtins
+import contextlib
 import io
 import os
 import pickle
@@ -689,3 +690,24 @@ class poison(object):
         np.empty = _REAL_EMPTY
         np.empty_like = _REAL_EMPTY_LIKE
         return False
+
+
+# ------------------------------------------------------------------ a process that may hold few descriptors
+
+@contextlib.contextmanager
+def low_fd_limit(margin=24):
+    """Run the body with the soft RLIMIT_NOFILE lowered to `margin` descriptors above the highest one in use: a tool that keeps a
+    descriptor PER BOX (or per task) instead of per file runs out as soon as a file holds more boxes than that -- which is where a
+    cluster's limit of 1024 sits for the plotfiles of a production run.  The limit is restored on exit."""
+    import resource
+    soft, hard = resource.getrlimit(resource.RLIMIT_NOFILE)
+    try:
+        top = max(int(x) for x in os.listdir("/proc/self/fd") if x.isdigit())
+    except OSError:
+        top = 64
+    new = min(soft if soft != resource.RLIM_INFINITY else 1 << 20, top + 1 + margin)
+    resource.setrlimit(resource.RLIMIT_NOFILE, (new, hard))
+    try:
+        yield new
+    finally:
+        resource.setrlimit(resource.RLIMIT_NOFILE, (soft, hard))
